@@ -6,7 +6,7 @@
 (* Complete behaviours are printed as JSON from terminal states.                         *)
 EXTENDS MC_IncExplainer, Json
 VARIABLE log
-CallRecord == [x |-> cur[1], y |-> cur[2], upd |-> upd, order |-> order, rows |-> rows, choice |-> schoice,
+CallRecord == [x |-> cur[1], y |-> cur[2], upd |-> upd, n |-> ncur, order |-> order, rows |-> rows, choice |-> schoice,
                fault |-> fcb, outcome |-> outcome, seen |-> seen,
                imp |-> T!MVGet(imp), var |-> T!MVGet(var), ml |-> ml.val, mo |-> mo.val,
                mp |-> T!MVGet(mp), margPred |-> margPred, store |-> store.sx]
